@@ -30,8 +30,8 @@ Lemma existsb_none l :
   existsb is_none l = negb (forallb (fun a : option nat => match a with Some _ => true | None => false end) l).
 Proof. induction l as [|[x|] l IH]; cbn; [reflexivity|exact IH|reflexivity]. Qed.
 
-Lemma mut_fail e i s : mut (fail e i s) s = (set_err (e, i) s, stuck_res (e, i)).
-Proof. reflexivity. Qed.
+Lemma mut_fail e i s : err s = None -> mut (fail e i s) s = (set_err (e, i) s, stuck_res (e, i)).
+Proof. intros He. unfold fail, set_err. rewrite He. reflexivity. Qed.
 Lemma mut_next s' s : err s' = None -> mut (Next s') s = (s', ok_res).
 Proof. intros H. cbn [mut]. now rewrite H. Qed.
 
